@@ -469,7 +469,64 @@ def s2_any_check(ctx, c, outs):
     return None
 
 
+def so3_space_group_check(ctx, c, outs):
+    """the space_group= route of get_sample_fundamental: same sample as for the proper point group of that space group,
+    inside the fundamental zone of that proper group"""
+    from orix.quaternion import OrientationRegion
+    from orix.quaternion.symmetry import get_point_group
+    from orix.sampling import get_sample_fundamental
+    with warnings.catch_warnings():
+        warnings.simplefilter("ignore")
+        Gp = get_point_group(c["space_group"], proper=True)
+        R = get_sample_fundamental(c["resolution"], space_group=c["space_group"], method=c["method"])
+        Rp = get_sample_fundamental(c["resolution"], point_group=Gp, method=c["method"])
+        # membership in the zone decided independently: no operation of the proper group brings the rotation closer to
+        # the identity
+        q = R.data.reshape(-1, 4)
+        g = Gp.data.reshape(-1, 4)
+        sq = hmul(g[:, None, :], q[None, :, :])
+        worse = np.abs(sq[..., 0]).max(axis=0) > np.abs(q[:, 0]) + 1e-9
+    if R.size == 0:
+        return "empty sample"
+    if worse.any():
+        return (f"space group {c['space_group']} (proper point group {Gp.name}), {c['method']}: {int(worse.sum())} of {R.size} "
+                f"sampled rotations lie outside the fundamental zone of {Gp.name}, e.g. {q[int(np.argmax(worse))].tolist()}")
+    if R.size != Rp.size or not np.array_equal(R.data, Rp.data):
+        return (f"space group {c['space_group']}: get_sample_fundamental(space_group=...) returns {R.size} rotations but "
+                f"point_group={Gp.name} gives {Rp.size}")
+    return None
+
+
+S2_DIRECT = {"uv": "sample_S2_uv_mesh", "equal_area": "sample_S2_equal_area_mesh", "spherified_cube_edge": "sample_S2_cube_mesh",
+             "hexagonal": "sample_S2_hexagonal_mesh", "icosahedral": "sample_S2_icosahedral_mesh"}
+
+
+def s2_sequence_check(ctx, c, outs):
+    """a sequence of sample_S2 calls with varying options in one process, the returned sample edited in place in between:
+    every call returns what the concrete mesh function returns for the same options (those are tied to the Lean model by
+    the corr sites)"""
+    from orix import sampling
+    from orix.sampling import sample_S2
+    for step, (m, r, kw, spoil) in enumerate(c["calls"]):
+        with warnings.catch_warnings():
+            warnings.simplefilter("ignore")
+            v = sample_S2(r, method=m, **kw)
+            fn = getattr(sampling.S2_sampling, S2_DIRECT[m])
+            extra = {"grid_type": "spherified_edge"} if m == "spherified_cube_edge" else {}
+            w = fn(r, **kw, **extra)
+        a, b = np.asarray(v.data, float).reshape(-1, 3), np.asarray(w.data, float).reshape(-1, 3)
+        if a.shape != b.shape or not np.array_equal(a, b):
+            return (f"step {step}: sample_S2({r}, method='{m}', **{kw}) returns {a.shape[0]} vectors"
+                    f"{'' if a.shape != b.shape else ' with different values'} but {S2_DIRECT[m]}({r}, **{kw}) returns "
+                    f"{b.shape[0]} (earlier calls in this process: {[(x[0], x[1], x[2]) for x in c['calls'][:step]]})")
+        if spoil:
+            v.data[...] = 0.0          # the caller owns the returned sample
+    return None
+
+
 SITES = {
+    "so3_space_group": sites.Site("so3_space_group", "prop", so3_space_group_check),
+    "s2_sequence": sites.Site("s2_sequence", "prop", s2_sequence_check),
     "so3_sample": sites.Site("so3_sample", "prop", so3_check),
     "s2_sample": sites.Site("s2_sample", "prop", s2_check),
     "reduced_sample": sites.Site("reduced_sample", "prop", reduced_check),
@@ -611,6 +668,27 @@ def generate(ctx):
                 ctx.count(f"so3_sample/{m}", ("so3", name, m, r))
                 yield "so3_sample", c
     ctx.sample({"site": "so3_sample", **c})
+    # the space_group= route: one space group per point group, proper and improper, with and without inversion
+    sgs = [1, 2, 3, 6, 10, 16, 25, 47, 75, 81, 83, 89, 99, 111, 123, 143, 147, 149, 156, 162, 168, 174, 175, 177, 183, 187,
+           191, 195, 200, 207, 215, 221]
+    for j, sg in enumerate(sgs if not quick else [sgs[i] for i in rng.permutation(len(sgs))[:12]]):
+        m = ("cubochoric", "haar_euler", "quaternion")[j % 3]
+        ctx.count(f"so3_space_group/{m}", ("sg", sg, m))
+        yield "so3_space_group", {"space_group": int(sg), "method": m, "resolution": 15.0 if quick else 10.0}
+    # sequences of sample_S2 calls in one process
+    for k in range(6 if quick else 30):
+        calls = []
+        r = float(rng.choice([10.0, 15.0, 7.5, 20.0]))
+        for _ in range(int(rng.integers(3, 6))):
+            m = ["uv", "uv", "equal_area", "spherified_cube_edge", "hexagonal", "icosahedral"][int(rng.integers(6))]
+            kw = {}
+            if m in ("uv", "equal_area") and rng.random() < 0.7:
+                kw["hemisphere"] = ["upper", "lower", "both"][int(rng.integers(3))]
+            if m == "uv" and rng.random() < 0.3:
+                kw["offset"] = 0.5
+            calls.append([m, r if rng.random() < 0.8 else float(rng.choice([10.0, 15.0])), kw, bool(rng.random() < 0.4)])
+        ctx.count("s2_sequence", ("seq", k, repr(calls)), nontrivial=True)
+        yield "s2_sequence", {"calls": calls}
     for m in S2_BOUND:
         for r in ([8.0, 4.0] if quick else [8.0, 4.0, 2.0]):
             ctx.count(f"s2_sample/{m}", ("s2", m, r))
